@@ -159,7 +159,7 @@ Definition layout : list (string * list string) := [
     "WRITE NONE";
     "ENDIF"]);
   ("in.binary_to_triangle", [
-    "IF not $1";
+    "IF $1 is None";
     "IF ((Path($0).expanduser()).suffix) == '.trib'";
     "SET $1 False";
     "ELIF ((Path($0).expanduser()).suffix) == '.tribc'";
